@@ -136,6 +136,31 @@ func c01Prop(rt *rapid.T, rec *ev.Recorder, maxDeps int) {
 		total += n
 		blocks = append(blocks, b)
 	}
+	if r := rapid.IntRange(0, 149).Draw(rt, "roundNumberOfDeposits"); r == 33 || r == 77 || r == 120 {
+		// the chain holds exactly 1000 or 2000 deposits (or one more / less): listings that are read in pages or chunks meet
+		// a full last page
+		target := rapid.SampledFrom([]int{1000, 1000, 2000, 999, 1001}).Draw(rt, "target")
+		for total < target {
+			num += uint64(rapid.IntRange(1, 3).Draw(rt, "gap"))
+			b := c01Block{Num: num, Restart: rapid.IntRange(0, 9).Draw(rt, "restart") == 0}
+			n := target - total
+			if n > 300 {
+				n = rapid.IntRange(100, 300).Draw(rt, "bulk")
+			}
+			for j := 0; j < n; j++ {
+				d := genBridgeOrRepeat(rt, allDeps)
+				if len(d.Metadata) > 64 {
+					d.Metadata = d.Metadata[:64]
+				}
+				allDeps = append(allDeps, d)
+				d.BlockNum, d.BlockPos, d.BlockTimestamp = num, uint64(j), num*12
+				b.Deps = append(b.Deps, d)
+			}
+			total += n
+			blocks = append(blocks, b)
+		}
+		rec.Class("histories_with_a_round_number_of_deposits")
+	}
 	var pre *c01Pre
 	next := uint32(0)
 	if rapid.IntRange(0, 9).Draw(rt, "hasPre") < 4 {
